@@ -8,12 +8,14 @@
 import Chrono.Proofs.RenderScanL
 import Chrono.Proofs.ZonedL
 import Chrono.Proofs.ParsedDateL
+import Chrono.Proofs.ParsedL
+import Chrono.Proofs.TimestampL
 import Chrono.Model.Rfc3339
 import Chrono.Spec.Rfc3339Spec
 
 namespace Chrono.Proofs.Rfc3339
 open Chrono Chrono.M Chrono.M.Scan Chrono.M.Parse Chrono.Spec Chrono.Spec.Rfc3339 Chrono.Proofs.RenderScan
-open Chrono.Extracted
+open Chrono.Extracted Chrono.Spec.Ts Chrono.Proofs.Ts Chrono.Proofs
 
 /-! ### generic tools for the `Except` monad of the scanner -/
 
@@ -413,7 +415,7 @@ theorem scan_sound (s rest : List Nat) (p : Parsed) (h : parse_rfc3339 Parsed.ne
         ⟨(isDig_iff _).mpr dy1, (isDig_iff _).mpr dy2, (isDig_iff _).mpr dy3, (isDig_iff _).mpr dy4⟩,
         ⟨(isDig_iff _).mpr dmo1, (isDig_iff _).mpr dmo2⟩, ⟨(isDig_iff _).mpr dd1, (isDig_iff _).mpr dd2⟩, hsepv,
         ⟨(isDig_iff _).mpr dh1, (isDig_iff _).mpr dh2⟩, ⟨(isDig_iff _).mpr dmi1, (isDig_iff _).mpr dmi2⟩,
-        ⟨(isDig_iff _).mpr dse1, (isDig_iff _).mpr dse2⟩, hft, hot, by simp [List.append_assoc],
+        ⟨(isDig_iff _).mpr dse1, (isDig_iff _).mpr dse2⟩, hft, hot, by simp,
         (num4_eq ..).symm, (num2_eq ..).symm, (num2_eq ..).symm, (num2_eq ..).symm, (num2_eq ..).symm,
         (num2_eq ..).symm⟩
     · unfold ScanValid
@@ -545,5 +547,307 @@ theorem scan_complete (t : List Nat) (f : Fields) (hm : Matches t f) (hv : ScanV
     rw [setNano_step _ _ fd _ hd hl hhead.1 ((st_nano ..).mpr ⟨by have := fracVal_lt fd hd; omega, rfl⟩)]
     dsimp only
     simpa [hne] using offset_tail _ _ _ _ _ _ _ (some ((fracVal fd : Nat) : Int)) offt _ _ _ _ hot v8 v9 max_offset_small rest
+
+/-! ### resolution of the scanned record: `Parsed::to_datetime` -/
+
+theorem date_rec (y : Int) (m d : Nat) (hd hm mi se n off : Option Int) :
+    Parsed.to_naive_date (recP (some y) (some (m : Int)) (some (d : Int)) hd hm mi se n off) =
+      if MIN_YEAR ≤ y ∧ y ≤ MAX_YEAR ∧ validYmd y m d = true then .ok (.ok (dateOfYo y (ordinalOf y m d)))
+      else .ok (.error .outOfRange) := by
+  unfold Parsed.to_naive_date
+  have h1 : Parsed.resolve_year (recP (some y) (some (m : Int)) (some (d : Int)) hd hm mi se n off).year
+      (recP (some y) (some (m : Int)) (some (d : Int)) hd hm mi se n off).year_div_100
+      (recP (some y) (some (m : Int)) (some (d : Int)) hd hm mi se n off).year_mod_100 = .ok (some y) := by
+    simp [recP, Parsed.resolve_year]
+  have h2 : Parsed.resolve_year (recP (some y) (some (m : Int)) (some (d : Int)) hd hm mi se n off).isoyear
+      (recP (some y) (some (m : Int)) (some (d : Int)) hd hm mi se n off).isoyear_div_100
+      (recP (some y) (some (m : Int)) (some (d : Int)) hd hm mi se n off).isoyear_mod_100 = .ok none := by
+    simp [recP, Parsed.resolve_year]
+  rw [h1, h2]
+  dsimp only
+  have h3 : Parsed.dateArm (recP (some y) (some (m : Int)) (some (d : Int)) hd hm mi se n off) (some y) none =
+      .ymd y m d := by simp [recP, Parsed.dateArm]
+  rw [h3]
+  unfold Parsed.armDate
+  dsimp only
+  rw [Int.toNat_natCast, Int.toNat_natCast, ctor_ymd']
+  by_cases hv : MIN_YEAR ≤ y ∧ y ≤ MAX_YEAR ∧ validYmd y m d = true
+  · rw [if_pos hv, if_pos hv]
+    obtain ⟨o1, o2⟩ := ordinal_bounds y m d hv.2.2
+    obtain ⟨w, hw⟩ := iso_week_ok y (ordinalOf y m d) ⟨hv.1, hv.2.1, o1, o2⟩
+    simp [Parsed.okOr, Parsed.RP.bind, Parsed.verify_isoweekdate, hw, Parsed.andR, Parsed.verify_ordinal, recP, Res.bind]
+  · rw [if_neg hv, if_neg hv]
+    simp [Parsed.okOr, Parsed.RP.bind]
+
+theorem time_rec (y mo d off : Option Int) (h mi se : Int) (n : Option Int) (hh : 0 ≤ h ∧ h ≤ 23)
+    (hmi : 0 ≤ mi ∧ mi ≤ 59) (hse : 0 ≤ se ∧ se ≤ 60) (hn : ∀ v, n = some v → 0 ≤ v ∧ v ≤ 999999999) :
+    Parsed.to_naive_time (recP y mo d (some (if h ≤ 11 then 0 else 1)) (some (if h ≤ 11 then h else h - 12))
+      (some mi) (some se) n off) =
+    .ok ⟨h * 3600 + mi * 60 + (if se = 60 then 59 else se), (if se = 60 then 1000000000 else 0) + n.getD 0⟩ := by
+  unfold Parsed.to_naive_time
+  have e1 : (recP y mo d (some (if h ≤ 11 then 0 else 1)) (some (if h ≤ 11 then h else h - 12))
+      (some mi) (some se) n off).hour_div_12 = some (if h ≤ 11 then 0 else 1) := rfl
+  have e2 : (recP y mo d (some (if h ≤ 11 then 0 else 1)) (some (if h ≤ 11 then h else h - 12))
+      (some mi) (some se) n off).hour_mod_12 = some (if h ≤ 11 then h else h - 12) := rfl
+  have e3 : (recP y mo d (some (if h ≤ 11 then 0 else 1)) (some (if h ≤ 11 then h else h - 12))
+      (some mi) (some se) n off).minute = some mi := rfl
+  have e4 : (recP y mo d (some (if h ≤ 11 then 0 else 1)) (some (if h ≤ 11 then h else h - 12))
+      (some mi) (some se) n off).second = some se := rfl
+  rw [e1, e2, e3, e4]
+  dsimp only
+  have c1 : (0 : Int) ≤ (if h ≤ 11 then 0 else 1) ∧ (if h ≤ 11 then (0 : Int) else 1) ≤ 1 := by split <;> omega
+  have c2 : 0 ≤ (if h ≤ 11 then h else h - 12) ∧ (if h ≤ 11 then h else h - 12) ≤ 11 := by split <;> omega
+  have c5 : (if h ≤ 11 then (0 : Int) else 1) * 12 + (if h ≤ 11 then h else h - 12) = h := by split <;> omega
+  rw [if_pos c1, if_pos c2, if_pos hmi, Option.getD_some, if_pos hse, c5]
+  rw [time_tail_char _ h mi (if se = 60 then 59 else se) (if se = 60 then 1000000000 else 0) (by omega) (by omega)
+    (by split <;> omega) (by split <;> simp_all)]
+  have e5 : (recP y mo d (some (if h ≤ 11 then 0 else 1)) (some (if h ≤ 11 then h else h - 12))
+      (some mi) (some se) n off).nanosecond = n := rfl
+  rw [e5, e4]
+  cases n with
+  | none => simp
+  | some v => simp [hn v rfl]
+
+theorem secs_consts : SECS_MIN = -8334601228800 ∧ SECS_MAX = 8210266876799 ∧ TS_MIN = -8334601228800 ∧
+    TS_MAX = 8210266876799 := by decide
+
+theorem dayNum_0_9999 (y : Int) (o : Int) (hy : 0 ≤ y ∧ y ≤ 9999) (ho : 1 ≤ o ∧ o ≤ 366) :
+    -366 ≤ dayNumYo y o ∧ dayNumYo y o ≤ 3652425 := by
+  unfold dayNumYo daysBeforeYear; omega
+
+/-- **resolution of the scanned record**, existing date -/
+theorem datetime_rec (y : Int) (m d : Nat) (h mi se : Int) (n : Option Int) (off : Int)
+    (hy : 0 ≤ y ∧ y ≤ 9999) (hv : validYmd y m d = true) (hh : 0 ≤ h ∧ h ≤ 23)
+    (hmi : 0 ≤ mi ∧ mi ≤ 59) (hse : 0 ≤ se ∧ se ≤ 60) (hn : ∀ v, n = some v → 0 ≤ v ∧ v ≤ 999999999)
+    (hoff : -86400 < off ∧ off < 86400) :
+    ∃ z, Parsed.to_datetime (recP (some y) (some (m : Int)) (some (d : Int)) (some (if h ≤ 11 then 0 else 1))
+        (some (if h ≤ 11 then h else h - 12)) (some mi) (some se) n (some off)) = .ok (.ok z) ∧
+      ZInv z ∧ z.off = off ∧
+      instSecs z.utc = (dayNum y m d - EPOCH_DAY) * 86400 + (h * 3600 + mi * 60 + (if se = 60 then 59 else se)) - off ∧
+      z.utc.time.frac = (if se = 60 then 1000000000 else 0) + n.getD 0 := by
+  have hMIN : MIN_YEAR = -262143 := rfl
+  have hMAX : MAX_YEAR = 262142 := rfl
+  have hyr : MIN_YEAR ≤ y ∧ y ≤ MAX_YEAR := by omega
+  obtain ⟨o1, o2⟩ := ordinal_bounds y m d hv
+  obtain ⟨hdi, hdn⟩ := dateInv_of_yo y (ordinalOf y m d) hyr ⟨o1, o2⟩
+  have hyl : yearLen y ≤ 366 := by unfold yearLen; split <;> omega
+  generalize hT : (⟨h * 3600 + mi * 60 + (if se = 60 then 59 else se),
+    (if se = 60 then 1000000000 else 0) + n.getD 0⟩ : Time) = T
+  have hTs : T.secs = h * 3600 + mi * 60 + (if se = 60 then 59 else se) := by rw [← hT]
+  have hTf : T.frac = (if se = 60 then 1000000000 else 0) + n.getD 0 := by rw [← hT]
+  have hnb : 0 ≤ n.getD 0 ∧ n.getD 0 ≤ 999999999 := by
+    cases n with
+    | none => simp
+    | some v => simpa using hn v rfl
+  have hTv : TValid T := by
+    unfold TValid; rw [hTs, hTf]
+    refine ⟨?_, ?_, ?_, ?_⟩ <;> split <;> omega
+  let ℓ : NaiveDT := ⟨dateOfYo y (ordinalOf y m d), T⟩
+  have hℓ : NDTInv ℓ := ⟨hdi, hTv⟩
+  have hsecs : instSecs ℓ = (dayNumYo y (ordinalOf y m d) - EPOCH_DAY) * 86400 + T.secs := by
+    show (dayNumOf (dateOfYo y (ordinalOf y m d)) - EPOCH_DAY) * 86400 + T.secs = _
+    rw [hdn]
+  obtain ⟨c1, c2, c3, c4⟩ := secs_consts
+  have hb := dayNum_0_9999 y (ordinalOf y m d) hy (by omega)
+  have hE : EPOCH_DAY = 719163 := rfl
+  have hTb : 0 ≤ T.secs ∧ T.secs < 86400 := ⟨hTv.1, hTv.2.1⟩
+  have hext : ExtNDTInv ℓ := ⟨((dateInv_iff ℓ.date).mp hℓ.1).1, hℓ.2⟩
+  obtain ⟨r, f1, f2, f3, _⟩ := from_local_spec off ℓ hoff hext
+  have hin : InRangeSecs (instSecs ℓ - off) := by
+    unfold InRangeSecs; rw [hsecs, c1, c2, hE]; omega
+  have hr : r ≠ none := fun e => f3 e hin
+  obtain ⟨z, rfl⟩ := Option.ne_none_iff_exists'.mp hr
+  obtain ⟨g1, g2, g3, g4, g5⟩ := f2 z rfl
+  refine ⟨z, ?_, ⟨⟨g5 hdi, g2.2⟩, by rw [g1]; exact hoff⟩, g1, ?_, by rw [g4, ← hTf]⟩
+  · unfold Parsed.to_datetime
+    have e1 : (recP (some y) (some (m : Int)) (some (d : Int)) (some (if h ≤ 11 then 0 else 1))
+        (some (if h ≤ 11 then h else h - 12)) (some mi) (some se) n (some off)).offset = some off := rfl
+    have e2 : (recP (some y) (some (m : Int)) (some (d : Int)) (some (if h ≤ 11 then 0 else 1))
+        (some (if h ≤ 11 then h else h - 12)) (some mi) (some se) n (some off)).timestamp = none := rfl
+    rw [e1]
+    dsimp only
+    unfold Parsed.to_naive_datetime_with_offset
+    rw [date_rec, if_pos ⟨hyr.1, hyr.2, hv⟩, time_rec _ _ _ _ h mi se n hh hmi hse hn, hT, e2]
+    dsimp only
+    rw [timestamp_spec ℓ hℓ]
+    have hck : ckI64 (instSecs ℓ - off) = .ok (instSecs ℓ - off) :=
+      ckI64_ok (by rw [hsecs, hE]; omega) (by rw [hsecs, hE]; omega)
+    simp only [Res.bind, hck]
+    have he : Zoned.east_opt off = some off := by unfold Zoned.east_opt; rw [if_pos hoff]
+    simp only [Parsed.RP.bind, he]
+    have f1' : Zoned.from_local_datetime off ⟨dateOfYo y (ordinalOf y m d), T⟩ = .ok (some z) := f1
+    rw [f1']
+  · rw [g3, hsecs, hTs]; rfl
+
+/-- a non-existing date is refused with `OUT_OF_RANGE` -/
+theorem datetime_rec_bad (y : Int) (m d : Nat) (h mi se : Int) (n : Option Int) (off : Int)
+    (hv : validYmd y m d = false) (hh : 0 ≤ h ∧ h ≤ 23)
+    (hmi : 0 ≤ mi ∧ mi ≤ 59) (hse : 0 ≤ se ∧ se ≤ 60) (hn : ∀ v, n = some v → 0 ≤ v ∧ v ≤ 999999999) :
+    Parsed.to_datetime (recP (some y) (some (m : Int)) (some (d : Int)) (some (if h ≤ 11 then 0 else 1))
+        (some (if h ≤ 11 then h else h - 12)) (some mi) (some se) n (some off)) = .ok (.error .outOfRange) := by
+  unfold Parsed.to_datetime
+  have e1 : (recP (some y) (some (m : Int)) (some (d : Int)) (some (if h ≤ 11 then 0 else 1))
+      (some (if h ≤ 11 then h else h - 12)) (some mi) (some se) n (some off)).offset = some off := rfl
+  have e2 : (recP (some y) (some (m : Int)) (some (d : Int)) (some (if h ≤ 11 then 0 else 1))
+      (some (if h ≤ 11 then h else h - 12)) (some mi) (some se) n (some off)).timestamp = none := rfl
+  rw [e1]
+  dsimp only
+  unfold Parsed.to_naive_datetime_with_offset
+  rw [date_rec, if_neg (by rw [hv]; simp), time_rec _ _ _ _ h mi se n hh hmi hse hn, e2]
+  rfl
+
+/-! ### the reader: scanner, "fully consumed", resolution -/
+
+theorem max_offset_eq : Parse.MAX_RFC3339_OFFSET = 86340 := by decide
+
+theorem matches_bounds (t : List Nat) (f : Fields) (hm : Matches t f) :
+    f.year ≤ 9999 ∧ f.offH ≤ 99 ∧ f.offM ≤ 99 ∧ AllDigits f.fracDigits := by
+  obtain ⟨fy, fmo, fd, fh, fmi, fs, ffr, fz, fneg, fH, fM⟩ := f
+  obtain ⟨y1, y2, y3, y4, mo1, mo2, d1, d2, sep, h1, h2, mi1, mi2, s1, s2, fr, offt, ⟨dy1, dy2, dy3, dy4⟩,
+    _, _, _, _, _, _, hft, hot, _, ey, _⟩ := hm
+  dsimp only at hft hot ey ⊢
+  refine ⟨?_, ?_, ?_, ?_⟩
+  · rw [ey]; unfold IsDig at *; simp only [num4, dval]; omega
+  · cases hot with
+    | upperZ => omega
+    | lowerZ => omega
+    | plus a b c d h => obtain ⟨h1, h2, _, _⟩ := h; unfold IsDig at *; simp only [num2, dval]; omega
+    | hyphen a b c d h => obtain ⟨h1, h2, _, _⟩ := h; unfold IsDig at *; simp only [num2, dval]; omega
+    | minus a b c d h => obtain ⟨h1, h2, _, _⟩ := h; unfold IsDig at *; simp only [num2, dval]; omega
+  · cases hot with
+    | upperZ => omega
+    | lowerZ => omega
+    | plus a b c d h => obtain ⟨_, _, h1, h2⟩ := h; unfold IsDig at *; simp only [num2, dval]; omega
+    | hyphen a b c d h => obtain ⟨_, _, h1, h2⟩ := h; unfold IsDig at *; simp only [num2, dval]; omega
+    | minus a b c d h => obtain ⟨_, _, h1, h2⟩ := h; unfold IsDig at *; simp only [num2, dval]; omega
+  · cases hft with
+    | absent => exact allDigits_nil
+    | present ds hne hd => exact (allDigits_iff _).mp hd
+
+theorem monthLen_le (y : Int) (m : Nat) : monthLen y m ≤ 31 := by
+  unfold monthLen; split <;> (try split) <;> omega
+
+theorem validYmd_bounds (y : Int) (m d : Nat) (h : validYmd y m d = true) : 1 ≤ m ∧ m ≤ 12 ∧ 1 ≤ d ∧ d ≤ 31 := by
+  unfold validYmd at h
+  simp only [Bool.and_eq_true, decide_eq_true_eq] at h
+  have := monthLen_le y m
+  omega
+
+/-- validity in the sense of the property = the scanner's range checks + the calendar check -/
+theorem valid_iff (f : Fields) : Valid f ↔ ScanValid f ∧ validYmd f.year f.month f.day = true := by
+  unfold Valid ScanValid
+  rw [max_offset_eq]
+  constructor
+  · rintro ⟨a, b, c, d, e, g⟩
+    obtain ⟨m1, m2, m3, m4⟩ := validYmd_bounds _ _ _ a
+    exact ⟨⟨m1, m2, m3, m4, by omega, by omega, d, by omega, by omega⟩, a⟩
+  · rintro ⟨⟨_, _, _, _, a, b, c, d, e⟩, g⟩
+    exact ⟨g, by omega, by omega, c, by omega, by omega⟩
+
+theorem fracNanos_nil : fracNanos [] = 0 := by decide
+
+/-- what `to_datetime` makes of the scanned record when the date exists -/
+theorem resolve_ok (f : Fields) (hy : f.year ≤ 9999) (hd : AllDigits f.fracDigits) (hs : ScanValid f)
+    (hv : validYmd f.year f.month f.day = true) :
+    ∃ z, Parsed.to_datetime (recOf f) = .ok (.ok z) ∧ Denotes f z := by
+  obtain ⟨s1, s2, s3, s4, s5, s6, s7, s8, s9⟩ := hs
+  rw [max_offset_eq] at s9
+  have hoff : -86400 < offsetOf f ∧ offsetOf f < 86400 := by unfold offsetOf; split <;> omega
+  have hn : ∀ v, (if f.fracDigits = [] then none else some (fracNanos f.fracDigits : Int)) = some v →
+      0 ≤ v ∧ v ≤ 999999999 := by
+    intro v hv'
+    split at hv'
+    · cases hv'
+    · injection hv' with hv'
+      have := fracVal_lt _ hd
+      rw [← fracNanos_eq] at this
+      omega
+  obtain ⟨z, h1, h2, h3, h4, h5⟩ := datetime_rec (f.year : Int) f.month f.day (f.hour : Int) (f.minute : Int)
+    (f.second : Int) _ (offsetOf f) (by omega) hv (by omega) (by omega) (by omega) hn hoff
+  refine ⟨z, h1, h2, h3, ?_, ?_⟩
+  · rw [h4]; unfold wallSecsOf
+    have : (if (f.second : Int) = 60 then (59 : Int) else (f.second : Int)) = (if f.second = 60 then 59 else (f.second : Int)) := by
+      split <;> split <;> omega
+    rw [this]; omega
+  · rw [h5]; unfold fracOf
+    have e1 : (if (f.second : Int) = 60 then (1000000000 : Int) else 0) = (if f.second = 60 then 1000000000 else 0) := by
+      split <;> split <;> omega
+    have e2 : (if f.fracDigits = [] then none else some (fracNanos f.fracDigits : Int)).getD 0 =
+        (fracNanos f.fracDigits : Int) := by
+      split
+      · rename_i h; rw [h, fracNanos_nil]; rfl
+      · rfl
+    rw [e1, e2]; omega
+
+/-- … and when it does not -/
+theorem resolve_bad (f : Fields) (hd : AllDigits f.fracDigits) (hs : ScanValid f)
+    (hv : validYmd f.year f.month f.day = false) :
+    Parsed.to_datetime (recOf f) = .ok (.error .outOfRange) := by
+  obtain ⟨s1, s2, s3, s4, s5, s6, s7, s8, s9⟩ := hs
+  have hn : ∀ v, (if f.fracDigits = [] then none else some (fracNanos f.fracDigits : Int)) = some v →
+      0 ≤ v ∧ v ≤ 999999999 := by
+    intro v hv'
+    split at hv'
+    · cases hv'
+    · injection hv' with hv'
+      have := fracVal_lt _ hd
+      rw [← fracNanos_eq] at this
+      omega
+  exact datetime_rec_bad (f.year : Int) f.month f.day (f.hour : Int) (f.minute : Int) (f.second : Int) _
+    (offsetOf f) hv (by omega) (by omega) (by omega) hn
+
+open Chrono.M.Rfc3339 in
+/-- **reader, soundness** -/
+theorem parse_sound (s : List Nat) (v : Zoned) (h : parse_from_rfc3339 s = .ok (.ok v)) :
+    ∃ f, Matches s f ∧ Valid f ∧ Denotes f v := by
+  unfold parse_from_rfc3339 at h
+  split at h
+  · cases h
+  · rename_i p rest hp
+    split at h
+    · obtain ⟨t, f, rfl, hm, hsv, rfl⟩ := scan_sound _ _ _ hp
+      rw [List.append_nil]
+      obtain ⟨b1, _, _, b4⟩ := matches_bounds t f hm
+      cases hv : validYmd f.year f.month f.day with
+      | true =>
+        obtain ⟨z, hz, hden⟩ := resolve_ok f b1 b4 hsv hv
+        rw [hz] at h
+        injection h with h; injection h with h
+        exact ⟨f, hm, (valid_iff f).mpr ⟨hsv, hv⟩, h ▸ hden⟩
+      | false =>
+        rw [resolve_bad f b4 hsv hv] at h
+        cases h
+    · cases h
+
+open Chrono.M.Rfc3339 in
+/-- **reader, completeness** -/
+theorem parse_complete (s : List Nat) (f : Fields) (hm : Matches s f) (hv : Valid f) :
+    ∃ v, parse_from_rfc3339 s = .ok (.ok v) ∧ Denotes f v := by
+  obtain ⟨hsv, hymd⟩ := (valid_iff f).mp hv
+  obtain ⟨b1, _, _, b4⟩ := matches_bounds s f hm
+  obtain ⟨z, hz, hden⟩ := resolve_ok f b1 b4 hsv hymd
+  refine ⟨z, ?_, hden⟩
+  unfold parse_from_rfc3339
+  have := scan_complete s f hm hsv []
+  rw [List.append_nil] at this
+  rw [this]
+  exact hz
+
+open Chrono.M.Rfc3339 in
+/-- **reader, totality**: never a panic; an error for everything outside the accepted set -/
+theorem parse_rejects (s : List Nat) (h : ¬ ∃ f, Matches s f ∧ Valid f) :
+    ∃ e, parse_from_rfc3339 s = .ok (.error e) := by
+  unfold parse_from_rfc3339
+  split
+  · rename_i e _; exact ⟨e, rfl⟩
+  · rename_i p rest hp
+    split
+    · obtain ⟨t, f, rfl, hm, hsv, rfl⟩ := scan_sound _ _ _ hp
+      rw [List.append_nil] at h
+      obtain ⟨b1, _, _, b4⟩ := matches_bounds t f hm
+      cases hv : validYmd f.year f.month f.day with
+      | true => exact absurd ⟨f, hm, (valid_iff f).mpr ⟨hsv, hv⟩⟩ h
+      | false => exact ⟨_, resolve_bad f b4 hsv hv⟩
+    · exact ⟨_, rfl⟩
 
 end Chrono.Proofs.Rfc3339
